@@ -100,6 +100,111 @@ template <class O> static std::string subViewCheck(O& obj, int off, int len, std
 }
 template <class O> static std::string subViewCheck(O&, int, int, std::false_type) { return ""; }
 
+// ---- the whole assignment family: {owning, Map} target x {owning, Map, Map<const>, Eigen} source x {lvalue, rvalue} ---------------
+// after every form: the target's memory holds the source's bits, nothing adjacent changed, an lvalue source is untouched, and the
+// target view still views its own buffer (a later write through it lands there and not in the source's memory)
+template <class O> static void assignMatrix(const std::string& tag, const O& A, const O& B, int ka, int kb) {
+  const int N = (int)A.coeffs().size();
+  Guarded ba(N, ka), bb(N, kb);
+  Dig wantB, wantA; put(wantB, B.coeffs()); put(wantA, A.coeffs());
+  int form = 0;
+  auto reset = [&]() { ba.load(A.coeffs()); bb.load(B.coeffs()); };
+  auto judge = [&](const char* what, const Dig& got, bool srcMustStay, const MonS* viewData) {
+    bool val = sameBits(got, wantB), guards = ba.intact() && bb.intact(), src = !srcMustStay || sameBits(bb.dump(), wantB), seat = viewData == nullptr || viewData == ba.p;
+    bool ok = val && guards && src && seat;
+    LOG.cell("assign-matrix/" + tag + "/" + what + "/" + GN(), ok ? 0 : 1);
+    if (!ok) viol(std::string(!guards ? "assignment-wrote-outside-buffer/" : !val ? "assignment-lost-coefficients/" : !src ? "assignment-changed-source/" : "assignment-reseated-view/") + tag + "/" + what);
+    ++form;
+  };
+  // a write through the target view after the assignment must still land in the target's buffer
+  auto later = [&](const char* what, Eigen::Map<O>& V) {
+    V = A;
+    bool ok = sameBits(ba.dump(), wantA) && sameBits(bb.dump(), wantB) && ba.intact() && bb.intact() && V.data() == ba.p;
+    LOG.cell("assign-matrix/" + tag + "/later-write-after-" + what + "/" + GN(), ok ? 0 : 1);
+    if (!ok) viol(std::string("assignment-reseated-view/") + tag + "/later-write-after-" + what);
+  };
+  { // target = view over ba
+    reset(); { Eigen::Map<O> V(ba.p); V = B; judge("Map=owning", ba.dump(), false, V.data()); later("Map=owning", V); }
+    reset(); { Eigen::Map<O> V(ba.p); O tmp = B; V = std::move(tmp); judge("Map=move(owning)", ba.dump(), false, V.data()); later("Map=move(owning)", V); }
+    reset(); { Eigen::Map<O> V(ba.p); Eigen::Map<O> S(bb.p); V = S; judge("Map=Map", ba.dump(), true, V.data()); later("Map=Map", V); }
+    reset(); { Eigen::Map<O> V(ba.p); Eigen::Map<O> S(bb.p); V = std::move(S); judge("Map=move(Map)", ba.dump(), true, V.data()); later("Map=move(Map)", V); }
+    reset(); { Eigen::Map<O> V(ba.p); V = Eigen::Map<O>(bb.p); judge("Map=temporary(Map)", ba.dump(), true, V.data()); later("Map=temporary(Map)", V); }
+    reset(); { Eigen::Map<O> V(ba.p); Eigen::Map<const O> S(bb.p); V = S; judge("Map=Map<const>", ba.dump(), true, V.data()); later("Map=Map<const>", V); }
+    reset(); { Eigen::Map<O> V(ba.p); V = Eigen::Map<const O>(bb.p); judge("Map=temporary(Map<const>)", ba.dump(), true, V.data()); later("Map=temporary(Map<const>)", V); }
+    reset(); { Eigen::Map<O> V(ba.p); V = B.coeffs(); judge("Map=Eigen", ba.dump(), false, V.data()); later("Map=Eigen", V); }
+    reset(); { Eigen::Map<O> V(ba.p); V = typename O::DataType(B.coeffs()); judge("Map=temporary(Eigen)", ba.dump(), false, V.data()); later("Map=temporary(Eigen)", V); }
+    reset(); { Eigen::Map<O> V(ba.p); Eigen::Map<O> S(bb.p); V = S.coeffs(); judge("Map=Map.coeffs()", ba.dump(), true, V.data()); }
+  }
+  { // target = owning object
+    auto own = [&](const O& T) { Dig d; put(d, T.coeffs()); return d; };
+    reset(); { O T = A; T = B; judge("owning=owning", own(T), false, nullptr); }
+    reset(); { O T = A; O tmp = B; T = std::move(tmp); judge("owning=move(owning)", own(T), false, nullptr); }
+    reset(); { O T = A; Eigen::Map<O> S(bb.p); T = S; judge("owning=Map", own(T), true, nullptr); }
+    reset(); { O T = A; Eigen::Map<O> S(bb.p); T = std::move(S); judge("owning=move(Map)", own(T), true, nullptr); }
+    reset(); { O T = A; T = Eigen::Map<O>(bb.p); judge("owning=temporary(Map)", own(T), true, nullptr); }
+    reset(); { O T = A; Eigen::Map<const O> S(bb.p); T = S; judge("owning=Map<const>", own(T), true, nullptr); }
+    reset(); { O T = A; T = Eigen::Map<const O>(bb.p); judge("owning=temporary(Map<const>)", own(T), true, nullptr); }
+    reset(); { O T = A; T = B.coeffs(); judge("owning=Eigen", own(T), false, nullptr); }
+    reset(); { O T = A; T = typename O::DataType(B.coeffs()); judge("owning=temporary(Eigen)", own(T), false, nullptr); }
+    // construction of an owning object from every kind, lvalue and rvalue
+    reset(); { Eigen::Map<O> S(bb.p); O T(S); judge("owning(Map)", own(T), true, nullptr); }
+    reset(); { Eigen::Map<O> S(bb.p); O T(std::move(S)); judge("owning(move(Map))", own(T), true, nullptr); }
+    reset(); { Eigen::Map<const O> S(bb.p); O T(S); judge("owning(Map<const>)", own(T), true, nullptr); }
+    reset(); { O T((Eigen::Map<const O>(bb.p))); judge("owning(temporary(Map<const>))", own(T), true, nullptr); }
+    reset(); { O tmp = B; O T(std::move(tmp)); judge("owning(move(owning))", own(T), false, nullptr); }
+  }
+}
+
+// ---- sub-view to sub-view assignment: obj.sub() = other.sub() copies exactly that block, from a mutable (temporary Map) and from a const source
+template <class O, class P, class Get> static std::string subAssign(O& obj, const P& other, int off, int len, const char* name, Get get) {
+  typedef typename std::remove_const<typename std::remove_reference<decltype(obj.coeffs()(0))>::type>::type Sc;
+  std::vector<Sc> before(obj.coeffs().size()); for (int k = 0; k < (int)before.size(); ++k) before[k] = obj.coeffs()(k);
+  for (int pass = 0; pass < 2; ++pass) {
+    P src = other;
+    if (pass == 0) get(obj) = get(src);                      // temporary mutable view -> move assignment of the view type
+    else { const P& csrc = src; get(obj) = get(csrc); }      // const view -> templated base assignment
+    for (int k = 0; k < (int)before.size(); ++k) {
+      bool inside = k >= off && k < off + len;
+      Sc want = inside ? other.coeffs()(k) : before[k];
+      if (std::memcmp(&want, &obj.coeffs()(k), sizeof(Sc)) != 0 && !(obj.coeffs()(k) == want))
+        return std::string(name) + " = " + (pass ? "const " : "mutable ") + name + ": coefficient " + std::to_string(k) + (inside ? " not copied" : " outside the block changed");
+      if (!(src.coeffs()(k) == other.coeffs()(k))) return std::string(name) + " assignment changed its source";
+    }
+    for (int k = 0; k < (int)before.size(); ++k) obj.coeffs()(k) = before[k];
+  }
+  return "";
+}
+struct GetSO3 { template <class T> auto operator()(T& o) const -> decltype(o.asSO3()) { return o.asSO3(); } };
+template <int I> struct GetElem { template <class T> auto operator()(T& o) const -> decltype(o.template element<I>()) { return o.template element<I>(); } };
+
+template <class T> struct IsBundle : std::false_type {};
+template <class S, template <class> class... T> struct IsBundle<manif::Bundle<S, T...>> : std::true_type {};
+template <int I, int N> struct ElemAssign {
+  template <class OG, class OT> static std::string run(OG& xg, const MonG& yg, OT& xt, const MonT& yt) {
+    const ref::Group& g = RG();
+    std::string r1 = subAssign(xg, yg, g.repOff[I], g.el[I].rep, "element<i>()", GetElem<I>());
+    if (!r1.empty()) return "group element " + std::to_string(I) + ": " + r1;
+    std::string r2 = subAssign(xt, yt, g.dofOff[I], g.el[I].dof, "element<i>()", GetElem<I>());
+    if (!r2.empty()) return "tangent element " + std::to_string(I) + ": " + r2;
+    return ElemAssign<I + 1, N>::run(xg, yg, xt, yt);
+  }
+};
+template <int N> struct ElemAssign<N, N> { template <class OG, class OT> static std::string run(OG&, const MonG&, OT&, const MonT&) { return ""; } };
+template <class G> struct BundleN { static const int value = 0; };
+template <class S, template <class> class... T> struct BundleN<manif::Bundle<S, T...>> { static const int value = (int)sizeof...(T); };
+
+template <class OG, class VG, class OT, class VT> static std::string so3Assign(OG& Xo, VG& Vx, const MonG& Y, OT& to, VT& Vt, const MonT& s, int rc, int ri, std::true_type) {
+  std::string q;
+  q = subAssign(Xo, Y, rc, 4, "asSO3()", GetSO3()); if (!q.empty()) return "owning group: " + q;
+  q = subAssign(Vx, Y, rc, 4, "asSO3()", GetSO3()); if (!q.empty()) return "viewed group: " + q;
+  q = subAssign(to, s, ri, 3, "asSO3()", GetSO3()); if (!q.empty()) return "owning tangent: " + q;
+  q = subAssign(Vt, s, ri, 3, "asSO3()", GetSO3()); if (!q.empty()) return "viewed tangent: " + q;
+  return "";
+}
+template <class OG, class VG, class OT, class VT> static std::string so3Assign(OG&, VG&, const MonG&, OT&, VT&, const MonT&, int, int, std::false_type) { return ""; }
+template <class OG, class OT> static std::string elemAssign(OG& xg, const MonG& yg, OT& xt, const MonT& yt, std::true_type) { return ElemAssign<0, BundleN<MonG>::value>::run(xg, yg, xt, yt); }
+template <class OG, class OT> static std::string elemAssign(OG&, const MonG&, OT&, const MonT&, std::false_type) { return ""; }
+
 void runOnce(const Args&) {}
 
 void runCase(long long i, Prng& r, const Args& a) {
@@ -199,7 +304,25 @@ void runCase(long long i, Prng& r, const Args& a) {
     LOG.cell("sub-view-asSO3/" + GN(), ok ? 0 : 1);
     if (!ok) LOG.viol("sub-view-asSO3-wrong/" + GN(), 1, caseJ(a, i).s("owning-group", r1).s("map-group", r2).s("owning-tangent", r3).s("map-tangent", r4).str());
     bx.load(X.coeffs()); bt.load(t.coeffs());
+    // sub-view to sub-view assignment (X.asSO3() = Y.asSO3()), owning and viewed targets, groups and tangents
+    std::string q = so3Assign(Xo, Vx, Y, to, Vt, s, e.rotCoef, e.rotIdx[0], HasAsSO3<MonG>());
+    ok = q.empty() && bx.intact() && bt.intact();
+    LOG.cell("sub-view-assign-asSO3/" + GN(), ok ? 0 : 1);
+    if (!ok) LOG.viol("sub-view-assignment-wrong/asSO3/" + GN(), 1, caseJ(a, i).s("what", q).str());
+    bx.load(X.coeffs()); bt.load(t.coeffs());
   }
+  if (IsBundle<MonG>::value) {   // Bundle::element<i>() = other.element<i>() on owning bundles and on views of bundles
+    MonG Xo = X; MonT to = t; bx.load(X.coeffs()); bt.load(t.coeffs());
+    Eigen::Map<MonG> Vx(bx.p); Eigen::Map<MonT> Vt(bt.p);
+    std::string q1 = elemAssign(Xo, Y, to, s, IsBundle<MonG>()), q2 = elemAssign(Vx, Y, Vt, s, IsBundle<MonG>());
+    bool ok = q1.empty() && q2.empty() && bx.intact() && bt.intact();
+    LOG.cell("sub-view-assign-element/" + GN(), ok ? 0 : 1);
+    if (!ok) LOG.viol("sub-view-assignment-wrong/element/" + GN(), 1, caseJ(a, i).s("owning", q1).s("map", q2).str());
+    bx.load(X.coeffs()); bt.load(t.coeffs());
+  }
+  // ---- the assignment family, groups and tangents ----------------------------------------------------------------------
+  assignMatrix<MonG>("group", X, Y, kx, ky);
+  assignMatrix<MonT>("tangent", t, s, kt, r.below(3));
   // ---- copy / move construction preserve coefficients exactly ----------------------------------------------------------
   {
     Eigen::Map<const MonG> cX(bx.p); Eigen::Map<MonG> mX(bx.p);
